@@ -6,6 +6,9 @@ From NIC Require Import Base.SMap AppProtect.Model AppProtect.Spec AppProtect.Pr
 Import ListNotations.
 Open Scope string_scope.
 Open Scope list_scope.
+
+Section V.
+Context {fx : bool}.
 Open Scope Z_scope.
 
 Lemma K1_after ob evs : K1_from ob evs -> sigs_distinct (ob_sig ob) -> sigs_distinct (ob_sig (objects_after ob evs)).
@@ -23,18 +26,18 @@ Proof. apply inv_after. apply inv0. Qed.
 (* the incrementally maintained flags are the from-scratch specification (as coded for the
    revision-time test): every answer of both getters, after every history *)
 Theorem flags_are_spec_as_coded en evs : K1_hist evs ->
-  (forall kd key, get_app_resource (waf (run en evs)) kd key =
-                  spec_answer acceptable_as_coded (final_objects evs) kd key) /\
-  (forall ns nm, get_valid_dos_ex (dos (run en evs)) ns nm = spec_dos_answer en (final_objects evs) ns nm).
+  (forall kd key, get_app_resource (waf (run fx en evs)) kd key =
+                  spec_answer (acceptable_for fx) (final_objects evs) kd key) /\
+  (forall ns nm, get_valid_dos_ex (dos (run fx en evs)) ns nm = spec_dos_answer en (final_objects evs) ns nm).
 Proof.
   intros HK. rewrite (run_is_spec_state en evs HK). split.
   - intros kd key. apply waf_answer_spec.
   - intros ns nm. apply dos_answer_spec.
 Qed.
 
-Theorem flags_are_spec en evs : K1_hist evs -> f21_free (final_objects evs) ->
-  (forall kd key, get_app_resource (waf (run en evs)) kd key = spec_answer acceptable (final_objects evs) kd key) /\
-  (forall ns nm, get_valid_dos_ex (dos (run en evs)) ns nm = spec_dos_answer en (final_objects evs) ns nm).
+Theorem flags_are_spec en evs : K1_hist evs -> fx = true \/ f21_free (final_objects evs) ->
+  (forall kd key, get_app_resource (waf (run fx en evs)) kd key = spec_answer acceptable (final_objects evs) kd key) /\
+  (forall ns nm, get_valid_dos_ex (dos (run fx en evs)) ns nm = spec_dos_answer en (final_objects evs) ns nm).
 Proof.
   intros HK HF. destruct (flags_are_spec_as_coded en evs HK) as [H1 H2]. split; [|exact H2].
   intros kd key. rewrite H1. apply natural_answer. exact HF.
@@ -45,10 +48,10 @@ Theorem one_in_force_per_tag en evs : K1_hist evs ->
   let S := ob_sig (final_objects evs) in
   forall k0 o0, In (k0, o0) S -> sig_competes o0 = true ->
   exists k o, In (k, o) S /\ sig_competes o = true /\ so_tag o = so_tag o0 /\
-              get_app_resource (waf (run en evs)) KUserSig k = AOk /\
+              get_app_resource (waf (run fx en evs)) KUserSig k = AOk /\
               forall k' o', In (k', o') S -> k' <> k -> sig_competes o' = true -> so_tag o' = so_tag o0 ->
                             older o o' = true /\
-                            get_app_resource (waf (run en evs)) KUserSig k' = AErr EDup.
+                            get_app_resource (waf (run fx en evs)) KUserSig k' = AErr EDup.
 Proof.
   intros HK S k0 o0 Hin C.
   pose proof (inv_sig _ (inv_final evs)) as W. fold S in W.
@@ -56,7 +59,7 @@ Proof.
   destruct (flags_are_spec_as_coded en evs HK) as [HA _].
   destruct (some_in_force S W K1 k0 o0 Hin C) as [k [o [H1 [H2 [H3 H4]]]]].
   assert (Hans : forall k1 o1, In (k1, o1) S -> sig_competes o1 = true ->
-            get_app_resource (waf (run en evs)) KUserSig k1 = if in_force S k1 o1 then AOk else AErr EDup).
+            get_app_resource (waf (run fx en evs)) KUserSig k1 = if in_force S k1 o1 then AOk else AErr EDup).
   { intros k1 o1 Hi Hc. rewrite HA. cbn [spec_answer]. unfold spec_sig_answer. fold S.
     rewrite (In_lookup _ _ _ W Hi). unfold sig_competes, sig_wf in Hc.
     apply andb_true_iff in Hc. destruct Hc as [Hc _]. apply andb_true_iff in Hc. destruct Hc as [Hv Hr].
@@ -72,32 +75,32 @@ Qed.
 (* every change of usability is reported *)
 Theorem changes_reported en evs ev kd key : K1_hist evs ->
   kd = KPolicy \/ kd = KLogConf \/ kd = KDosPR ->
-  let st := run en evs in
-  flip_reported st (fst (step st ev)) (snd (step st ev)) kd key.
+  let st := run fx en evs in
+  flip_reported st (fst (step fx st ev)) (snd (step fx st ev)) kd key.
 Proof.
   intros HK Hkd st. unfold st. rewrite (run_is_spec_state en evs HK).
   apply step_flips_reported; [apply inv_final|exact Hkd].
 Qed.
 
-Lemma wf_run_sigs en evs : K1_hist evs -> wf (usersigs (waf (run en evs))).
+Lemma wf_run_sigs en evs : K1_hist evs -> wf (usersigs (waf (run fx en evs))).
 Proof.
   intros HK. rewrite (run_is_spec_state en evs HK). cbn. apply wf_mapk. apply (inv_sig _ (inv_final evs)).
 Qed.
 
 Theorem usersig_list_reported en evs ev : K1_hist evs ->
-  let st := run en evs in
+  let st := run fx en evs in
   sig_op_effective st ev = true ->
-  exists l, o_usersigs (snd (step st ev)) = Some l /\
-            forall key, In key l <-> usable (fst (step st ev)) KUserSig key = true.
+  exists l, o_usersigs (snd (step fx st ev)) = Some l /\
+            forall key, In key l <-> usable (fst (step fx st ev)) KUserSig key = true.
 Proof. intros HK st. apply usersig_list_complete. apply wf_run_sigs. exact HK. Qed.
 
 Theorem usersig_problems_reported en evs ev key : K1_hist evs ->
-  let st := run en evs in
+  let st := run fx en evs in
   is_sig_event ev = true ->
-  stored (fst (step st ev)) KUserSig key = true ->
-  usable (fst (step st ev)) KUserSig key = false ->
+  stored (fst (step fx st ev)) KUserSig key = true ->
+  usable (fst (step fx st ev)) KUserSig key = false ->
   (usable st KUserSig key = true \/ exists o, ev = EvUserSig key o) ->
-  exists c, In (prob KUserSig key c) (o_problems (snd (step st ev))).
+  exists c, In (prob KUserSig key c) (o_problems (snd (step fx st ev))).
 Proof. intros HK st. apply usersig_problem_reported. apply wf_run_sigs. exact HK. Qed.
 
 (* ------------------------------------------------------------------------------------------ *)
@@ -128,3 +131,11 @@ Proof.
   rewrite forallb_forall in H. specialize (H (ks, so) Hs). cbn [snd] in H.
   rewrite Etag, String.eqb_refl in H. cbn in H. destruct (tf_opt (so_rev so)); [discriminate|reflexivity].
 Qed.
+
+End V.
+
+(* with fixes/F21.diff applied (variant fx = true) the full statement holds for every history *)
+Theorem flags_are_spec_with_fix en evs : K1_hist evs ->
+  (forall kd key, get_app_resource (waf (run true en evs)) kd key = spec_answer acceptable (final_objects evs) kd key) /\
+  (forall ns nm, get_valid_dos_ex (dos (run true en evs)) ns nm = spec_dos_answer en (final_objects evs) ns nm).
+Proof. intros HK. apply (@flags_are_spec true en evs HK). left. reflexivity. Qed.
